@@ -9,7 +9,8 @@ cp $WT/demo_seeded.py $D/demo_seeded.py
 [ -s $D/patch.diff ] || { echo "EMPTY PATCH"; exit 1; }
 # 1. tests with the change: the 377 stable tests still pass
 OUT=$(mktemp /tmp/junit.XXXXXX.xml)
-(cd $WT && /venv/bin/python -m pytest -q -p no:cacheprovider --timeout=900 --continue-on-collection-errors --junitxml=$OUT >/dev/null 2>&1)
+(cd $WT && PYTHONPATH=$WT/src /venv/bin/python -m pytest -q -p no:cacheprovider --timeout=900 --continue-on-collection-errors --junitxml=$OUT >/dev/null 2>&1)
+PYTHONPATH=$WT/src /venv/bin/python -c 'import engineio,sys; print("tests import", engineio.__file__)'
 /venv/bin/python - "$OUT" <<'PY'
 import json, sys, xml.etree.ElementTree as ET
 want = set(json.load(open('/root/.vp/BASELINE.json'))['stable_pass'])
